@@ -436,7 +436,7 @@ def stridx_control(ctx):
     c = Crate(controls.load())
     probe = rule_stridx(c, dirs=("lib.rs",), min_bodies=0)
     out = RuleOut("STRIDX.control", "positive control for a rule whose expected count on numbat is zero")
-    if probe.count("violation") == 1:
+    if any(f.verdict == "violation" and "stridx_control" in f.key for f in probe.findings):
         out.ok("control", "engine/nbfacts/controls/src/lib.rs", 1, "matcher fired on the planted `&s[a..b]`")
     else:
         out.error("positive control failed: STRIDX reported %d sites in the control crate" % probe.count("violation"))
@@ -481,6 +481,43 @@ from prec import rule_oprt  # noqa: E402
 
 PROPERTIES["C15"]["rules"] += [("OPRT", lambda ctx: rule_oprt(ctx.lib))]
 PROPERTIES["C15"]["explanation"] += " (OPRT) Operator-spelling round trip: each of the 14 BinaryOperator spellings the printer emits is produced by the tokenizer as one token kind, which the parser's level functions map back to the same operator."
+
+from listview import rule_viewread  # noqa: E402
+
+PROPERTIES["C18"]["rules"] += [("VIEWREAD", lambda ctx: rule_viewread(ctx.lib))]
+PROPERTIES["C18"]["explanation"] += " (VIEWREAD) Every element read of the shared deque in list.rs is offset by the view window: positional reads take an index derived from self.view, iteration is skip/take derived from it, end-relative reads (pop_front, front, …) do not occur — so a list's elements do not depend on whether its storage is shared."
+
+from trivtab import rule_trivtab  # noqa: E402
+
+for _pid in ("C16", "C02"):
+    PROPERTIES[_pid]["rules"] += [("TRIVTAB", lambda ctx: rule_trivtab(ctx.lib))]
+    PROPERTIES[_pid]["explanation"] += " (TRIVTAB) The solver's on-the-spot resolution of IsDType for closed types agrees with Type::is_dtype, the predicate the elaborator uses to choose the closed-type (annotated) path: Satisfied unconditionally for dimension types, Violated otherwise — so annotated and inferred code generate equivalent constraints."
+
+from prec import rule_parens  # noqa: E402
+
+PROPERTIES["C15"]["rules"] += [("PARENS", lambda ctx: rule_parens(ctx.lib))]
+PROPERTIES["C15"]["explanation"] += " (PARENS) typed_ast::with_parens leaves an operand bare only for expression kinds the parser builds at the call/primary levels (computed from the level chain); kinds built at operator levels are parenthesised."
+
+from stridx import rule_stridx_inclusive  # noqa: E402
+
+
+def stridx_inclusive_control(ctx):
+    import controls
+    from core import RuleOut
+    from hirlib import Crate
+
+    c = Crate(controls.load())
+    probe = rule_stridx_inclusive([c], min_sites=0, skip_tests=False)
+    out = RuleOut("STRIDX.inclusive.control", "positive control for a rule whose expected count on numbat is zero")
+    if any(f.verdict == "violation" and "stridx_inclusive_control" in f.key for f in probe.findings):
+        out.ok("control", "engine/nbfacts/controls/src/lib.rs", 1, "matcher fired on the planted `&s[..=last]`")
+    else:
+        out.error("positive control failed: STRIDX.inclusive reported %d sites in the control crate" % probe.count("violation"))
+    return out
+
+
+PROPERTIES["C08"]["rules"] += [("STRIDX.inclusive", lambda ctx: rule_stridx_inclusive([ctx.lib, ctx.bin])), ("STRIDX.inclusive.control", stridx_inclusive_control)]
+PROPERTIES["C08"]["explanation"] += " (STRIDX.inclusive) Nowhere in the library or the CLI is a string sliced with an inclusive byte range whose end is a run-time offset (such offsets are character START offsets; `..=i` ends inside a multi-byte character and panics)."
 
 NOT_APPLICABLE = {
     "C03": "numerical agreement of conversion factors over 500 units is a statement about run-time values; no structural clause is a necessary condition that is not already covered under C04/C11/C12 (static analysis cannot bound the arithmetic)",
